@@ -124,6 +124,10 @@ def _canon(x, depth=0):
     if isinstance(x, Collective):
         return ['coll', _canon(x.n_solo_jumps, depth + 1), _canon(x.n_coll_jumps, depth + 1), _canon(x.coll_jumps, depth + 1),
                 _canon([[a, b] for a, b in x.collective], depth + 1), _canon(x.max_dist, depth + 1), _canon(x.max_steps, depth + 1)]
+    if hasattr(x, 'data') and hasattr(x, 'transitions') and isinstance(getattr(x, 'data', None), pd.DataFrame):  # a Jumps
+        return ['jumps', _canon(x.data, depth + 1), _canon(getattr(x, 'minimal_residence', None), depth + 1)]
+    if hasattr(x, 'states') and hasattr(x, 'events') and isinstance(getattr(x, 'events', None), pd.DataFrame):  # a Transitions
+        return ['transitions', _canon(np.asarray(x.states), depth + 1), _canon(x.events, depth + 1)]
     if isinstance(x, dict):  # incl. Counter
         return ['dict', sorted(([_canon(k, depth + 1), _canon(v, depth + 1)] for k, v in x.items()), key=lambda v: json.dumps(v[0], sort_keys=True))]
     if isinstance(x, (list, tuple)):
@@ -210,7 +214,22 @@ def gen_world_params(rng: SimRandom, idx: int) -> dict:
         'b': round(4.0 + 0.017 * idx, 4),
         'temp': 300.0 + 7.0 * idx,
         'p_hop': rng.pick([0.15, 0.25, 0.4]),
+        'dt': 2e-15,
+        'label_shift': 0,
     }
+
+
+def sibling_world(rng: SimRandom, p: dict, idx: int) -> dict:
+    """Same hop history (identical site states, events and jump table) but another cell, time step, temperature and
+    site labelling: the *analysis results* differ while the tables the objects are built from compare equal."""
+    q = dict(p)
+    q['spacing'] = round(p['spacing'] * rng.pick([1.07, 1.19]), 4)
+    q['b'] = round(p['b'] + 0.31 + 0.011 * idx, 4)
+    q['temp'] = round(p['temp'] * rng.pick([1.37, 0.61]), 2)
+    q['dt'] = rng.pick([1e-15, 3e-15])
+    q['label_shift'] = rng.pick([0, 1])
+    q['sibling_of_seed'] = p['seed']
+    return q
 
 
 class World:
@@ -237,7 +256,7 @@ class World:
         g = np.random.default_rng(seed)
         n_sites, n_atoms, nf = p['n_sites'], p['n_atoms'], p['nf']
         L = Lattice.from_parameters(n_sites * p['spacing'], p['b'], 4.5, 90, 90, 90)
-        labels = ['A' if k % 2 == 0 else 'B' for k in range(n_sites)]
+        labels = ['A' if (k + p.get('label_shift', 0)) % 2 == 0 else 'B' for k in range(n_sites)]
         site_frac = np.array([[(k + 0.5) / n_sites, 0.5, 0.5] for k in range(n_sites)])
         self.sites = Structure(L, ['Li'] * n_sites, site_frac, labels=labels)
         occ = [int(x) for x in g.choice(n_sites, n_atoms, replace=False)]
@@ -263,7 +282,8 @@ class World:
         self.pos = np.mod(pos, 1)
         self.lattice = L
         self.species = [Element('Li')] * n_atoms
-        self.traj = Trajectory(species=self.species, coords=self.pos.copy(), lattice=L, time_step=2e-15, metadata={'temperature': p['temp']})
+        self.dt = p.get('dt', 2e-15)
+        self.traj = Trajectory(species=self.species, coords=self.pos.copy(), lattice=L, time_step=self.dt, metadata={'temperature': p['temp']})
         try:
             tr = Transitions.from_trajectory(trajectory=self.traj, sites=self.sites, floating_specie='Li', site_radius=1.0)
         except ValueError:  # no transition at all in this sample
@@ -288,7 +308,7 @@ class World:
         if t is None:
             shift = np.zeros_like(self.pos)
             shift[:, :, 1] = 0.0007 * v * np.arange(len(self.pos))[:, None] / len(self.pos)
-            t = Trajectory(species=self.species, coords=np.mod(self.pos + shift, 1), lattice=self.lattice, time_step=2e-15,
+            t = Trajectory(species=self.species, coords=np.mod(self.pos + shift, 1), lattice=self.lattice, time_step=self.dt,
                            metadata={'temperature': self.p['temp']})
             self._variants[v] = t
         return t
@@ -355,7 +375,12 @@ class Twins:
 def generate(run_seed: int, tier: str = 'quick', stream: str = 'seq') -> dict:
     rng = SimRandom(run_seed)
     n_worlds = rng.weighted({2: 2, 3: 3, 5: 3, 8: 2, 12: 1})
-    wparams = [gen_world_params(rng, i) for i in range(n_worlds)]
+    wparams = []
+    for i in range(n_worlds):
+        if i and rng.chance(0.4):
+            wparams.append(sibling_world(rng, rng.pick(wparams), i))
+        else:
+            wparams.append(gen_world_params(rng, i))
     n_clients = rng.randint(1, 4)
     cfg = {
         'n_clients': n_clients,
@@ -385,13 +410,23 @@ def generate(run_seed: int, tier: str = 'quick', stream: str = 'seq') -> dict:
         op = {'op': 'CREATE', 'name': new_name(), 'kind': kind, 'w': rng.randrange(n_worlds), 'client': rng.randrange(n_clients)}
         if kind == 'metrics':
             op['v'] = rng.pick([0, 0, 1, 2])
+            op['via'] = rng.pick(['ctor', 'api'])
         elif kind == 'transitions':
             op['v'] = rng.pick([0, 0, 1, 2])
         elif kind == 'jumps':
             op['mr'] = rng.pick([0, 0, 1])
             trs = [n for n, k in names if k == 'transitions']
-            if trs and rng.chance(0.5):
+            if trs and rng.chance(0.6):
                 op['base'] = rng.pick(trs)
+                op['via'] = rng.pick(['ctor', 'api'])
+            elif rng.chance(0.25):
+                par = [n for n, k in names if k in ('jumps', 'transitions')]
+                if par:
+                    pn = rng.pick(par)
+                    pk = next(k for n, k in names if n == pn)
+                    op = {'op': 'CREATE', 'name': op['name'], 'kind': 'part', 'parent': pn, 'n': rng.pick([2, 3]), 'i': rng.randrange(3), 'client': op['client'], 'w': 0}
+                    names.append((op['name'], pk))
+                    return op
         elif kind == 'collective':
             js = [n for n, k in names if k == 'jumps']
             if not js:
@@ -498,6 +533,23 @@ class Run:
         self.oracle_checks = 0
         self.flood_serial = 0
         self.asked: set = set()
+        # decorated methods the table does not know (none on the unchanged tree): exercised with no arguments
+        import inspect
+
+        self.methods = {}
+        for kind, cls in self.twins.real.items():
+            known = {m for m, _ in METHODS[kind]}
+            extra = []
+            for name, f in vars(cls).items():
+                if callable(f) and hasattr(f, '__wrapped__') and name not in known:
+                    try:
+                        params = list(inspect.signature(f.__wrapped__).parameters.values())[1:]
+                        if all(q.default is not q.empty or q.kind in (q.VAR_POSITIONAL, q.VAR_KEYWORD) for q in params):
+                            extra.append((name, [((), {})]))
+                    except (TypeError, ValueError):
+                        pass
+            self.methods[kind] = list(METHODS[kind]) + sorted(extra)
+            self.n_extra = getattr(self, 'n_extra', 0) + len(extra)
 
     # -- helpers --------------------------------------------------------
     def violation(self, cls, detail, signature=None):
@@ -505,6 +557,12 @@ class Run:
 
     def world(self, i):
         return self.worlds[i % len(self.worlds)]
+
+    @staticmethod
+    def root_world(recipe):
+        while recipe[0] in ('part', 'collective', 'jumps_on'):
+            recipe = recipe[1]
+        return recipe[1]
 
     def build(self, recipe, twin: bool):
         """Construct the analysis object described by ``recipe`` (real or uncached twin class)."""
@@ -520,12 +578,19 @@ class Run:
             _, w, v, mr = recipe
             return C['jumps'](C['transitions'](**self.world(w).transitions_kwargs(v)), minimal_residence=mr)
         if kind == 'collective':
-            _, w, v, mr, how, arg = recipe
-            j = C['jumps'](C['transitions'](**self.world(w).transitions_kwargs(v)), minimal_residence=mr)
+            _, jrecipe, how, arg = recipe
+            j = self.build(jrecipe, twin)
+            w = self.root_world(jrecipe)
             if how == 'direct':
                 return C['collective'](jumps=j, sites=self.world(w).sites, lattice=self.world(w).lattice, max_steps=4, max_dist=arg)
             args, kwargs = METHODS['jumps'][2][1][arg]
             return j.collective(*args, **kwargs)
+        if kind == 'part':
+            _, parent, n, i = recipe
+            return self.build(parent, twin).split(n)[i]
+        if kind == 'jumps_on':
+            _, base, mr = recipe
+            return C['jumps'](self.build(base, twin), minimal_residence=mr)
         raise HarnessError(f'bad recipe {recipe}')
 
     @staticmethod
@@ -539,7 +604,7 @@ class Run:
         key = (recipe, mi, ai)
         t = self.truth.get(key)
         if t is None:
-            method, variants = METHODS[kind][mi]
+            method, variants = self.methods[kind][mi]
             with self.twins:
                 try:
                     obj = self.build(recipe, twin=True)
@@ -562,15 +627,39 @@ class Run:
         w = op['w'] % len(self.worlds)
         deps, maybe = [], []
         checkable = True
-        if kind in ('metrics', 'transitions'):
+        if kind == 'metrics' and op.get('via') == 'api':
+            recipe = (kind, w, op.get('v', 0))
+            obj = self.world(w).traj_variant(op.get('v', 0)).metrics()
+        elif kind in ('metrics', 'transitions'):
             recipe = (kind, w, op.get('v', 0))
             obj = self.build(recipe, twin=False)
+        elif kind == 'part':
+            par = self.entries.get(op.get('parent'))
+            if par is None or par.obj is None or par.kind not in ('jumps', 'transitions') or par.recipe[0] == 'part':
+                self.trace.log(ev='CREATE', step=self.step, skipped='no parent')
+                return
+            n = op.get('n', 2)
+            try:
+                parts = par.obj.split(n)
+            except ValueError:
+                self.trace.log(ev='CREATE', step=self.step, skipped='split failed')
+                return
+            i = op.get('i', 0) % len(parts)
+            obj = parts[i]
+            del parts
+            recipe = ('part', par.recipe, n, i)
+            kind = par.kind
+            par.called.append('split')
         elif kind == 'jumps':
             base = self.entries.get(op.get('base'))
             if base is not None and base.obj is not None and base.kind == 'transitions':
-                recipe = ('jumps', base.recipe[1], base.recipe[2], op.get('mr', 0))
+                recipe = ('jumps', base.recipe[1], base.recipe[2], op.get('mr', 0)) if base.recipe[0] == 'transitions' else ('jumps_on', base.recipe, op.get('mr', 0))
                 try:
-                    obj = self.twins.real['jumps'](base.obj, minimal_residence=op.get('mr', 0))
+                    if op.get('via') == 'api':
+                        obj = base.obj.jumps(minimal_residence=op.get('mr', 0))
+                        base.called.append('jumps')
+                    else:
+                        obj = self.twins.real['jumps'](base.obj, minimal_residence=op.get('mr', 0))
                 except ValueError:
                     self.trace.log(ev='CREATE', step=self.step, skipped='no jumps')
                     return
@@ -587,15 +676,15 @@ class Run:
             if j is None or j.obj is None or j.kind != 'jumps':
                 self.trace.log(ev='CREATE', step=self.step, skipped='no jumps entry')
                 return
-            _, jw, jv, jmr = j.recipe
+            jw = self.root_world(j.recipe)
             if op.get('via') == 'direct':
                 md = [0.5, 1.0, 2.0, 4.0][op.get('a', 0) % 4]
-                recipe = ('collective', jw, jv, jmr, 'direct', md)
+                recipe = ('collective', j.recipe, 'direct', md)
                 obj = self.twins.real['collective'](jumps=j.obj, sites=self.world(jw).sites, lattice=self.world(jw).lattice, max_steps=4, max_dist=md)
                 maybe = [j.name]
             else:
                 ai = op.get('a', 0) % len(METHODS['jumps'][2][1])
-                recipe = ('collective', jw, jv, jmr, 'query', ai)
+                recipe = ('collective', j.recipe, 'query', ai)
                 args, kwargs = METHODS['jumps'][2][1][ai]
                 obj = j.obj.collective(*args, **kwargs)
                 j.called.append('collective')
@@ -633,8 +722,11 @@ class Run:
         if e is None or e.obj is None:
             self.trace.log(ev='QUERY', step=self.step, skipped=True)
             return
-        ms = METHODS[e.kind]
-        mi = op['m'] % len(ms)
+        ms = self.methods[e.kind]
+        n_known = len(METHODS[e.kind])
+        mi = op['m'] % n_known
+        if len(ms) > n_known and (self.step + op['m']) % 3 == 0:
+            mi = n_known + (self.step % (len(ms) - n_known))
         method, variants = ms[mi]
         ai = op['a'] % len(variants)
         tracer = None
@@ -682,7 +774,7 @@ class Run:
             if owner is None:
                 for (recipe, m2, a2), t in self.truth.items():
                     if same(t, got) and recipe == e.recipe and m2 == mi and a2 != ai:
-                        self.violation('wrong_arguments_value', f'{e.kind}.{method}{variants[ai]} returned the value belonging to arguments {METHODS[e.kind][mi][1][a2]}', sig)
+                        self.violation('wrong_arguments_value', f'{e.kind}.{method}{variants[ai]} returned the value belonging to arguments {self.methods[e.kind][mi][1][a2]}', sig)
             if owner is not None:
                 self.violation(
                     'leak_from_other_object',
@@ -777,6 +869,9 @@ class Run:
             self.trace.log(ev='REUSE_PROBE', step=self.step, skipped=True)
             return
         kind = e.kind
+        if e.recipe[0] not in ('metrics', 'transitions', 'jumps'):
+            self.trace.log(ev='REUSE_PROBE', step=self.step, skipped='derived object')
+            return
         w2 = op['w'] % len(self.worlds)
         recipe = (kind, w2) + tuple(e.recipe[2:])
         if kind == 'jumps':
